@@ -43,3 +43,15 @@ reg('C18',
     '(no Cython here). 19 elements whose reference isotope is missing from their tables are recorded as known findings keyed by element.',
     'complete enumeration of a finite state space (all elements x isotopes x charges x radical) on the real tables and pack/matcher encoders',
     'DESIGN.md s5 C18', thorough=False)
+
+reg('C07',
+    'All (pattern, target) pairs of two small scopes are enumerated: patterns = every decorated molecule D(<=4 atoms, <=1 deviation) plus '
+    'two-component patterns, every connected induced subgraph cut from each target, and 45 SMARTS queries (ring closures, bond lists, ring/non-ring '
+    'bonds, two components); targets = D(<=5,1) (thorough: D(<=6,1)) plus multi-component unions. For each pair the real matcher is run with the '
+    'automorphism filter off and on, with every searching scope of <=4 target atoms (fixed sub-grid), and through <=, <, >=, is_equal, '
+    'is_substructure, get_automorphism_mapping; results are compared as sets with a brute-force enumerator of injective maps (atom ==, bond ==, '
+    'exact closures inside a pattern component, distinct target components for distinct pattern components).',
+    'Trusted: vf/oracle/iso.py brute-force enumerator; atom/bond compatibility itself is delegated to the library == (C08 decides its meaning). '
+    'Targets above 6 atoms are outside the bound. Queries use the pure-Python matcher (_cython=False); operators on queries go through the default path.',
+    'bounded exhaustive enumeration of pattern x target x scope x filter on the real matcher vs brute-force reference',
+    'DESIGN.md s5 C07')
